@@ -281,6 +281,60 @@ def main():
         rac.case(("crafted", s), sample=s)
         if bad:
             rac.fail("crafted " + s, f"C19 {s!r} {bad[0]}: expression built earlier / deferred / immediate give {bad[1]}", scr, "MadxEval")
+    rac.section("attribute-mode+assignments", "the same grammar with elements accessed as ATTRIBUTES (get='attr'), and assignment sentences "
+                "`name = expression` evaluated deferred (they define the variable through the manager): the stored values follow every later "
+                "change of a variable or of an element attribute made through the manager with plain keys, and equal immediate evaluation",
+                "6 expressions x 2 ways of defining x 4 changes, chains of two assignments")
+    ATTR_SRC = """
+import math, xdeps
+from xdeps.madxutils import MadxEval
+class El:
+    def __init__(self, **kw): self.__dict__.update(kw)
+def mkattr():
+    m = xdeps.Manager()
+    v = {"a": 1.5, "b": -2.0, "res": 0.0, "c": 0.0, "d": 0.0}
+    e = {"q1": El(k1=0.25, l=2.0), "m.b": El(angle=-0.125, l=0.5)}
+    vr, er, fr = m.ref(v, "v"), m.ref(e, "e"), m.ref(math, "f")
+    return m, v, e, vr, er, MadxEval(vr, fr, er, get="attr").eval, MadxEval(v, math, e, get="attr").eval
+"""
+    aenv = {}
+    exec(ATTR_SRC, aenv)
+    achanges = ["vr['a'] = 4.0", "er['q1'].k1 = 1.0", "er['m.b'].angle = 0.75", "vr['b'] = 0.5"]
+    for ex_s in ["q1->k1*2+a", "m.b->angle/q1->l", "sin(q1->k1)+b", "q1->k1^2*m.b->l", "a*b", "atan2(q1->l,a)-m.b->angle"]:
+        for how in ("vr['res'] = dexpr(S)", "dexpr('res = ' + S)"):
+            m_, v_, e_, vr_, er_, dexpr, iexpr = aenv["mkattr"]()
+            loc = dict(vr=vr_, er=er_, dexpr=dexpr, S=ex_s)
+            key = f"attr-mode {ex_s} via {how}"
+            scr = PRELUDE + ATTR_SRC + f"m, v, e, vr, er, dexpr, iexpr = mkattr()\nS = {ex_s!r}\n{how}\nassert v['res'] == iexpr(S), (v['res'], iexpr(S))\n" + \
+                "".join(f"{c}\nassert v['res'] == iexpr(S), ({c!r}, v['res'], iexpr(S))\n" for c in achanges)
+            rac.case(key, sample=dict(expr=ex_s, how=how))
+            try:
+                exec(how, loc)
+                bad = None
+                if v_["res"] != iexpr(ex_s):
+                    bad = ("at definition", v_["res"], iexpr(ex_s))
+                for c in achanges:
+                    if bad:
+                        break
+                    exec(c, loc)
+                    if v_["res"] != iexpr(ex_s):
+                        bad = ("after " + c, v_["res"], iexpr(ex_s))
+            except Exception as ex:      # noqa
+                bad = ("raised", type(ex).__name__, str(ex)[:80])
+            if bad:
+                rac.fail(key, f"C19 attribute mode, res defined by {ex_s!r} ({how}): {bad[0]}: stored {bad[1]!r}, immediate evaluation gives {bad[2]!r}", scr, "MadxEval")
+    for mode in ("attr", "item"):
+        key = f"assignment chain {mode}"
+        src = ATTR_SRC + "m, v, e, vr, er, dexpr, iexpr = mkattr()\n" + ("" if mode == "attr" else
+                          "from xdeps.madxutils import MadxEnv\nenv = MadxEnv(); env._variables.update(a=1.5, b=-2.0, c=0.0, d=0.0)\nv, vr, dexpr = env._variables, env._vref, env.madexpr\n") + \
+            "dexpr('c = a+b'); dexpr('d = c*2')\nassert (v['c'], v['d']) == (-0.5, -1.0), dict(v)\nvr['a'] = 10.0\nassert (v['c'], v['d']) == (8.0, 16.0), dict(v)\n"
+        rac.case(key, sample=dict(mode=mode, sentences=["c = a+b", "d = c*2", "a := 10"]))
+        try:
+            exec(src, {})
+        except AssertionError as ex:
+            rac.fail(key, f"C19 ({mode} mode) c = a+b; d = c*2; then a = 10 through the manager: variables {ex}", PRELUDE + src, "MadxEval.assign_var")
+        except Exception as ex:      # noqa
+            rac.fail(key, f"C19 ({mode} mode) assignment chain raised {type(ex).__name__}: {ex}", PRELUDE + src, "MadxEval.assign_var")
     return rac.finish()
 
 
